@@ -626,6 +626,22 @@ fn verif_native_size_extremes_cli() {
             panic!("violation");
         }
     }
+    // the debugger's own source view (non-minimal mode renders a labelled excerpt) of a statement that starts beyond column 64K:
+    // the session goes on and ends like the undebugged run (C09), no panic
+    {
+        evaluated += 1;
+        let asm = dir.join("y.asm");
+        std::fs::write(&asm, format!("{}add r0, r0, #1\nhalt\n", " ".repeat(70000))).unwrap();
+        let cmd = format!("exec timeout 60 '{}' debug --command 'assembly; step; print r0' '{}'", bin, asm.to_str().unwrap());
+        let out = std::process::Command::new("sh").args(["-c", &cmd]).stdin(std::process::Stdio::null()).output().expect("sh");
+        let code = out.status.code().unwrap_or(-1);
+        if code != 0 {
+            let err = String::from_utf8_lossy(&out.stderr);
+            let line = err.lines().find(|l| l.contains("panicked")).unwrap_or("").to_string();
+            verif_out(&format!("VERIF-COUNTEREXAMPLE name={} input=`lace debug --command 'assembly; step; print r0'` on a program whose first statement starts at column 70000 detail=exit status {} (expected 0) {}", name, code, line));
+            panic!("violation");
+        }
+    }
     let _ = std::fs::remove_dir_all(&dir);
     verif_out(&format!("VERIF-NATIVE name={} evaluated={} distinct={}", name, evaluated, evaluated));
 }
